@@ -84,7 +84,7 @@ CHECKS = {
     clauses=[rc('C20.a2r', 6000000, 160000000), sweep('C20.a2rsweep'), sweep('C20.angle')], floors={'C20.a2r': {'outside[0,360]->NaN': 0.2}}),
  'C07': dict(
     rule="(entry point, arguments) over the whole inventory on sanitized builds with harness-owned UBSan handlers, the libstdc++ assertion hook and signal recovery; identity of a finding = (kind, file, line)",
-    clauses=[rc('C07.entry', 60000000, 100000000, family='S'), rc('C07.trap', 20000000, 50000000, family='R')], floors={'C07.entry': {'@nontrivial': 0.4}}),
+    clauses=[rc('C07.entry', 30000000, 100000000, family='S'), rc('C07.trap', 10000000, 50000000, family='R')], floors={'C07.entry': {'@nontrivial': 0.4}}),
  'C08': dict(
     rule="(entry point, in-domain arguments) over the whole inventory, bit-identical results across all build configurations (same sqrt algorithm group)",
     clauses=[rc('C08.diff', 40000000, 400000000), rc('C08.prog', 8000000, 200000000, kprog=True), sweep('C08.consts')], floors={}),
@@ -188,6 +188,21 @@ def cet_engine(env):
         rule='as C08.ce, but the cases come from the targeted generators of the property clauses %s (product- and quotient-targeted operand pairs, planted windows, type limits, pole sets), mapped onto the corresponding entry point; compile-time value must equal the run-time value on 6 compile-time configurations' % ', '.join(CET_CLAUSES), cases_per_clause=per, samples=samples)
     return out
 CHECKS['C08']['extra'] = [ce_engine, cet_engine]
+def make_prop_cet(clauses):
+    # the owning property's own clauses evaluated at compile time: a value that is right at run time (exact model)
+    # but different or rejected in a constant expression violates the property for that evaluation mode
+    def engine(env):
+        out = dict(violations=[], errors=[], known_hits={}); tot = 0; dn = 0; samples = []
+        for cl in clauses:
+            r = ce_engine(env, gen='clause', clause=cl, cid=env['prop'] + '.cet', n=(1500 if env['tier'] == 'quick' else 12000))
+            out['violations'] += r.get('violations', [])[:1]; out['errors'] += r.get('errors', [])
+            e = r.get('evidence') or {}; tot += e.get('evaluations', 0); dn += e.get('distinct_nontrivial', 0); samples += e.get('samples', [])[:1]
+        out['evidence'] = dict(id=env['prop'] + '.cet', engine='generated constant-evaluation programs, targeted', evaluations=tot, executions=tot * len(K_CONFIGS), distinct_nontrivial=dn, exhaustive=False,
+            rule='cases from the generators of %s compiled as static_assert(ce_<entry>(args) == run-time value) with GCC and Clang in c++17+abacus / c++20 / c++2b: the run-time value is judged by the exact oracle of the clause, the compile-time value must equal it' % ', '.join(clauses), samples=samples)
+        return out
+    return engine
+for _p, _cl in {'C01': ['C01.addsub'], 'C02': ['C02.mulff', 'C02.mulint'], 'C03': ['C03.divff', 'C03.divint'], 'C04': ['C04.toint', 'C04.fromint'], 'C11': ['C11.atan2'], 'C13': ['C13.sqrtrc'], 'C14': ['C14.hypot'], 'C15': ['C15.floorceil'], 'C16': ['C16.int'], 'C18': ['C18.shift']}.items():
+    CHECKS[_p].setdefault('extra', []).append(make_prop_cet(_cl))
 CHECKS['C07'].setdefault('extra', []).append(lambda env: ce_engine(env, gen='c07', clause='C07.entry', cid='C07.ce'))
 
 # ----------------------------------------------------------------------------- engine E3: libFuzzer
